@@ -99,6 +99,7 @@ fn r_decl(d: &Decl, ind: &str, o: &mut String) {
 }
 fn r_use(from: &str, items: &[(String, Option<String>)], ind: &str, o: &mut String) {
     // a leading '@' marks a reference by full package path; the marker is replaced by `render`
+    let from = from.trim_start_matches('!');
     o.push_str(&format!("{ind}use {from}.{{{}}};\n", items.iter().map(|(a, b)| match b { Some(b) => format!("{a} as {b}"), None => a.clone() }).collect::<Vec<_>>().join(", ")));
 }
 fn r_iitems(items: &[IItem], ind: &str, o: &mut String) {
@@ -119,7 +120,7 @@ fn r_wpath(kw: &str, p: &WPath, lang: Lang, o: &mut String) {
             // WIT: no semicolon after the closing brace; WAC: required
             o.push_str(if lang == Lang::Wit { "  }\n" } else { "  };\n" });
         }
-        WPath::Iface(n) => o.push_str(&format!("  {kw} {n};\n")),
+        WPath::Iface(n) => o.push_str(&format!("  {kw} {};\n", n.trim_start_matches('!'))),
     }
 }
 fn render(p: &Pkg, lang: Lang) -> String {
@@ -154,7 +155,15 @@ fn render(p: &Pkg, lang: Lang) -> String {
     let ver = match &p.version { Some(v) => format!("@{v}"), None => String::new() };
     let mut out = String::new();
     for line in o.lines() {
-        if let Some(pos) = line.find("use @") {
+        let t = line.trim_start();
+        if t.starts_with("import @") || t.starts_with("export @") || t.starts_with("include @") {
+            let pos = line.find('@').unwrap();
+            let rest = &line[pos + 1..];
+            let end = rest.find(|c: char| c == ';' || c == ' ').unwrap_or(rest.len());
+            let (name, tail) = rest.split_at(end);
+            if lang == Lang::Wit { out.push_str(&format!("{}{}{}\n", &line[..pos], name, tail)); }
+            else { out.push_str(&format!("{}{}/{}{}{}\n", &line[..pos], p.name, name, ver, tail)); }
+        } else if let Some(pos) = line.find("use @") {
             let rest = &line[pos + 5..];
             let (iface, tail) = rest.split_once('.').unwrap();
             // the reference toolchain rejects a path into the package itself ("package depends on itself"): WIT gets the plain name
@@ -274,8 +283,9 @@ impl<'a> Gen<'a> {
             }
         }
         if items.is_empty() { return None; }
-        let by_path = self.r.chance(1, 6);
+        let by_path = !src.name.starts_with('!') && self.r.chance(1, 6);
         if by_path { self.feats.insert("use-by-package-path".into()); }
+        if src.name.starts_with('!') { self.feats.insert("use-from-foreign-package".into()); }
         Some((if by_path { format!("@{}", src.name) } else { src.name.clone() }, items, bound))
     }
 
@@ -302,12 +312,14 @@ impl<'a> Gen<'a> {
         (items, sc, has_funcs, deps)
     }
 
-    fn pkg(&mut self, max_if: u64, max_w: u64) -> (Pkg, String) {
-        let name = format!("{}:{}", self.r.pick(&["x", "foo", "my-ns"]), self.r.pick(&["y", "bar", "pk-g"]));
+    fn pkg(&mut self, max_if: u64, max_w: u64, foreign: Vec<IfaceInfo>, dep: bool) -> (Pkg, String, Vec<IfaceInfo>) {
+        let name = if dep { format!("{}:{}", self.r.pick(&["dep", "other"]), self.r.pick(&["lib", "p-q"])) }
+                   else { format!("{}:{}", self.r.pick(&["x", "foo", "my-ns"]), self.r.pick(&["y", "bar", "pk-g"])) };
         let version = match self.r.below(4) { 0 => None, 1 => Some("1.2.0".to_string()), 2 => Some("0.3.1".to_string()), _ => Some("2.0.0-rc.1".to_string()) };
-        let id_of = |n: &str| format!("{name}/{n}{}", match &version { Some(v) => format!("@{v}"), None => String::new() });
+        let id_of = |n: &str| if let Some(f) = n.strip_prefix('!') { f.to_string() } else { format!("{name}/{n}{}", match &version { Some(v) => format!("@{v}"), None => String::new() }) };
         let n_if = 1 + self.small(max_if - 1); let n_w = self.small(max_w);
-        let mut ifaces: Vec<IfaceInfo> = Vec::new(); let mut worlds: Vec<WorldInfo> = Vec::new();
+        let n_foreign = foreign.len();
+        let mut ifaces: Vec<IfaceInfo> = foreign; let mut worlds: Vec<WorldInfo> = Vec::new();
         let mut tops = Vec::new(); let mut metas = Vec::new();
         let (mut di, mut dw) = (0, 0);
         while di < n_if || dw < n_w {
@@ -379,13 +391,16 @@ impl<'a> Gen<'a> {
                             if side.contains(&id) { continue; }
                             side.push(id);
                             refs.insert(i.name.clone());
-                            if imp { expl_if_imports.insert(i.name.clone()); items.push(WItem::Import(WPath::Iface(i.name.clone()))); }
-                            else { exp_ifaces.insert(i.name.clone()); exp_deps.extend(i.deps.iter().cloned()); items.push(WItem::Export(WPath::Iface(i.name.clone()))); }
+                            let by_path = !i.name.starts_with('!') && self.r.chance(1, 5);
+                            if by_path { self.feats.insert("item-by-package-path".into()); }
+                            let shown = if by_path { format!("@{}", i.name) } else { i.name.clone() };
+                            if imp { expl_if_imports.insert(i.name.clone()); items.push(WItem::Import(WPath::Iface(shown))); }
+                            else { exp_ifaces.insert(i.name.clone()); exp_deps.extend(i.deps.iter().cloned()); items.push(WItem::Export(WPath::Iface(shown))); }
                         }
                         _ if !worlds.is_empty() => {
                             // include an earlier world; rename some plain names; never create a conflict
                             let w = self.r.pick(&worlds);
-                            if items.iter().any(|i| matches!(i, WItem::Include(n, _) if n == &w.name)) { continue; }
+                            if items.iter().any(|i| matches!(i, WItem::Include(n, _) if n.trim_start_matches('@') == w.name)) { continue; }
                             let mut ren: Vec<(String, String)> = Vec::new();
                             let plain: BTreeSet<String> = w.imports.iter().chain(w.exports.iter()).filter(|n| !n.contains(':') && !n.contains('[')).cloned().collect();
                             let mut ok = true;
@@ -407,14 +422,15 @@ impl<'a> Gen<'a> {
                             expl_if_imports.extend(w.explicit_iface_imports.iter().cloned());
                             exp_ifaces.extend(w.export_ifaces.iter().cloned()); exp_deps.extend(w.export_deps.iter().cloned());
                             has_use |= w.has_use; has_use_res |= w.has_use_res;
-                            items.push(WItem::Include(w.name.clone(), ren));
+                            let by_path = self.r.chance(1, 5);
+                            items.push(WItem::Include(if by_path { format!("@{}", w.name) } else { w.name.clone() }, ren));
                         }
                         _ => {}
                     }
                 }
                 if items.is_empty() { let n = self.fresh("wf"); exps.push(n.clone()); items.push(WItem::Export(WPath::Func(n, Func { params: vec![], result: None }))); }
                 // features for known-finding signatures
-                for it in &items { if let WItem::Use(from, _) = it { let from = from.trim_start_matches('@'); if items.iter().any(|j| matches!(j, WItem::Import(WPath::Iface(n)) if n == from)) { self.feats.insert("use+import-same-iface".into()); } } }
+                for it in &items { if let WItem::Use(from, _) = it { let from = from.trim_start_matches('@'); if items.iter().any(|j| matches!(j, WItem::Import(WPath::Iface(n)) if n.trim_start_matches('@') == from)) { self.feats.insert("use+import-same-iface".into()); } } }
                 // implicit imports: everything reachable through `use` from the referenced interfaces, not imported explicitly
                 let mut reach = BTreeSet::new(); let mut todo: Vec<String> = refs.iter().cloned().collect();
                 while let Some(x) = todo.pop() { if reach.insert(x.clone()) { if let Some(i) = ifaces.iter().find(|i| i.name == x) { todo.extend(i.deps.iter().cloned()); } } }
@@ -430,7 +446,11 @@ impl<'a> Gen<'a> {
             }
         }
         for f in &self.feats { metas.push(format!("F|{f}")); }
-        (Pkg { name, version, tops }, metas.join(";"))
+        let infos: Vec<IfaceInfo> = ifaces.into_iter().skip(n_foreign).map(|i| {
+            let id = id_of(&i.name);
+            IfaceInfo { name: format!("!{id}"), types: i.types, has_funcs: i.has_funcs, deps: i.deps.iter().map(|d| format!("!{}", id_of(d))).collect() }
+        }).collect();
+        (Pkg { name, version, tops }, metas.join(";"), infos)
     }
 }
 
@@ -545,9 +565,12 @@ fn world_features(t: &Types, w: WorldId, f: &mut BTreeSet<String>) {
     if alias_of_used(t, &world.uses, &world.imports) { f.insert("alias-of-used-type".into()); }
     if res_alias_of_used(t, &world.uses, &world.imports) { f.insert("res-alias-of-used".into()); }
     let mut leaked: BTreeSet<String> = BTreeSet::new();    // local names of `use`s of interfaces encoded so far
-    for u in world.uses.values() { all_use_names(t, u.interface, &mut leaked, 0); }
+    let mut seen_instance = false;
     for (n, k) in &world.imports {
-        if let ItemKind::Type(_) = k { if !world.uses.contains_key(n) && leaked.contains(n) { f.insert("alias-name-leak".into()); } }
+        if let ItemKind::Type(_) = k { if leaked.contains(n) { f.insert("alias-name-leak".into()); } }
+        // encoding an instance import clears the world's own `type_aliases`: a used RESOURCE imported after it loses its alias
+        if let ItemKind::Type(Type::Resource(_)) = k { if seen_instance && world.uses.contains_key(n) { f.insert("alias-name-leak".into()); } }
+        if let ItemKind::Instance(_) = k { seen_instance = true; }
         if let ItemKind::Instance(i) = k {
             all_use_names(t, *i, &mut leaked, 0);
             if alias_of_used(t, &t[*i].uses, &t[*i].exports) { f.insert("alias-of-used-type".into()); }
@@ -567,13 +590,20 @@ fn world_features(t: &Types, w: WorldId, f: &mut BTreeSet<String>) {
 fn world_decl<'a, 'b>(doc: &'b wac_parser::Document<'a>, name: &str) -> Option<&'b wac_parser::WorldDecl<'a>> {
     doc.statements.iter().find_map(|s| match s { wac_parser::Statement::Type(wac_parser::TypeStatement::World(w)) if w.id.string == name => Some(w), _ => None })
 }
+fn world_ref_name<'a>(doc: &wac_parser::Document<'a>, r: &wac_parser::WorldRef<'a>) -> Option<&'a str> {
+    match r {
+        wac_parser::WorldRef::Ident(id) => Some(id.string),
+        wac_parser::WorldRef::Package(p) if p.name == doc.directive.package.name => p.segment_spans().next().map(|x| x.0),
+        _ => None,
+    }
+}
 fn world_has_use(doc: &wac_parser::Document, name: &str, depth: u32) -> bool {
     if depth > 8 { return false; }
     match world_decl(doc, name) {
         None => false,
         Some(w) => w.items.iter().any(|it| match it {
             wac_parser::WorldItem::Use(_) => true,
-            wac_parser::WorldItem::Include(i) => match &i.world { wac_parser::WorldRef::Ident(id) => world_has_use(doc, id.string, depth + 1), _ => false },
+            wac_parser::WorldItem::Include(i) => match world_ref_name(doc, &i.world) { Some(n) => world_has_use(doc, n, depth + 1), None => false },
             _ => false,
         }),
     }
@@ -595,9 +625,9 @@ fn features(doc: &wac_parser::Document, g: &wac_graph::CompositionGraph) -> Stri
                     world_features(t, wid, &mut f);
                     for it in &w.items {
                         if let wac_parser::WorldItem::Include(inc) = it {
-                            if let wac_parser::WorldRef::Ident(v) = &inc.world {
-                                if world_has_use(doc, v.string, 0) { f.insert("include-of-use".into()); }
-                                if let Some(ItemKind::Type(Type::World(vid))) = g.get_export(v.string).map(|n| g[n].item_kind()) {
+                            if let Some(v) = world_ref_name(doc, &inc.world) {
+                                if world_has_use(doc, v, 0) { f.insert("include-of-use".into()); }
+                                if let Some(ItemKind::Type(Type::World(vid))) = g.get_export(v).map(|n| g[n].item_kind()) {
                                     for r in &inc.with {
                                         if t[vid].imports.contains_key(r.from.string) && t[vid].exports.contains_key(r.from.string) { f.insert("include-with-both-sides".into()); }
                                         if let Some(ItemKind::Type(Type::Resource(_))) = t[vid].imports.get(r.from.string) {
@@ -626,10 +656,25 @@ fn err_class<E: std::fmt::Debug>(e: &E) -> String {
 }
 
 /// observation + (if everything succeeds) the encoded bytes
-fn observe_wac(src: &str) -> (String, Option<Result<Vec<u8>, String>>, String) {
+/// name and version of the `package` line of a WIT text
+fn package_line(src: &str) -> Option<(String, Option<semver::Version>)> {
+    let l = src.lines().find(|l| l.starts_with("package "))?;
+    let body = l.trim_start_matches("package ").trim_end_matches(';').trim();
+    match body.split_once('@') { Some((n, v)) => Some((n.to_string(), semver::Version::parse(v).ok())), None => Some((body.to_string(), None)) }
+}
+
+fn observe_wac(src: &str, dep: &str) -> (String, Option<Result<Vec<u8>, String>>, String) {
     let r = catch_unwind(AssertUnwindSafe(|| {
         let doc = match wac_parser::Document::parse(src) { Ok(d) => d, Err(_) => return ("PARSE-ERR".to_string(), None, String::new()) };
-        let res = match doc.resolve(Default::default()) { Ok(r) => r, Err(e) => return (format!("ERR {}", err_class(&e)), None, String::new()) };
+        // the dependency, if any, is supplied as the reference toolchain's binary encoding of its WIT text
+        let dep_info = if dep.is_empty() { None } else {
+            let (n, v) = match package_line(dep) { Some(x) => x, None => return ("BAD-DEP".to_string(), None, String::new()) };
+            let bytes = match wit_encode(dep, "") { Ok(b) => b, Err(e) => return (format!("BAD-DEP {e}"), None, String::new()) };
+            Some((n, v, bytes))
+        };
+        let mut packages = indexmap::IndexMap::new();
+        if let Some((n, v, bytes)) = &dep_info { packages.insert(BorrowedPackageKey::from_name_and_version(n, v.as_ref()), bytes.clone()); }
+        let res = match doc.resolve(packages) { Ok(r) => r, Err(e) => return (format!("ERR {}", err_class(&e)), None, String::new()) };
         let g = res.graph(); let t = g.types();
         let mut trees = Vec::new(); let mut metas = Vec::new();
         for s in &doc.statements {
@@ -653,9 +698,10 @@ fn observe_wac(src: &str) -> (String, Option<Result<Vec<u8>, String>>, String) {
     r.unwrap_or_else(|_| (format!("PANIC {}", last_panic()), None, String::new()))
 }
 
-fn wit_encode(wit: &str) -> Result<Vec<u8>, String> {
+fn wit_encode(wit: &str, dep: &str) -> Result<Vec<u8>, String> {
     catch_unwind(AssertUnwindSafe(|| {
         let mut resolve = wit_parser::Resolve::default();
+        if !dep.is_empty() { resolve.push_str("dep.wit", dep).map_err(|e| format!("dependency: {e:#}"))?; }
         let id = resolve.push_str("c05.wit", wit).map_err(|e| format!("{e:#}"))?;
         wit_component::encode(&resolve, id).map_err(|e| format!("{e:#}"))
     })).unwrap_or_else(|_| Err("PANIC in the reference toolchain".into()))
@@ -758,13 +804,13 @@ fn compare_wp(wit_bytes: &[u8], wac_bytes: &[u8], worlds: &[WMeta]) -> String {
     match r { Ok(Ok(n)) => format!("WP-OK {n}"), Ok(Err(e)) => format!("WP-DIFF {e}"), Err(_) => format!("WP-SKIP the validator's subtype check panics: {}", last_panic()) }
 }
 
-fn evaluate(kind: &str, wac: &str, wit: &str, meta: &str) -> String {
-    let (obs, enc, feats) = observe_wac(wac);
+fn evaluate(kind: &str, wac: &str, wit: &str, meta: &str, dep: &str) -> String {
+    let (obs, enc, feats) = observe_wac(wac, dep);
     let feats = if feats.is_empty() { "-".to_string() } else { feats };
     if kind != "pkg" { return format!("{obs}\t-\t-\t{feats}"); }
     let (worlds, _) = parse_meta(meta);
     let clean = |s: String| s.replace(['\n', '\t'], " ");
-    let wb = match wit_encode(wit) { Ok(b) => b, Err(e) => return format!("{obs}\tREF-SKIP reference toolchain rejects the text: {}\tWP-SKIP\t{feats}", clean(e)) };
+    let wb = match wit_encode(wit, dep) { Ok(b) => b, Err(e) => return format!("{obs}\tREF-SKIP reference toolchain rejects the text: {}\tWP-SKIP\t{feats}", clean(e)) };
     let cb = match enc {
         None => return format!("{obs}\tREF-DIFF wac does not resolve a text the reference accepts\tWP-SKIP\t{feats}"),
         Some(Err(e)) => return format!("{obs}\tREF-DIFF wac encode fails: {}\tWP-SKIP\t{feats}", clean(e)),
@@ -904,7 +950,7 @@ fn negatives(r: &mut Rng, n_random: usize) -> Vec<String> {
     // random single-point mutations of generated packages
     for _ in 0..n_random {
         let mut g = Gen { r, n: 0, feats: BTreeSet::new() };
-        let (p, _) = g.pkg(3, 2);
+        let (p, _, _) = g.pkg(3, 2, Vec::new(), false);
         let src = render(&p, Lang::Wac);
         let lines: Vec<&str> = src.lines().collect();
         let idx: Vec<usize> = (0..lines.len()).filter(|i| lines[*i].starts_with("  ") && lines[*i].trim_end().ends_with(';') || lines[*i].trim_start().starts_with("record") || lines[*i].trim_start().starts_with("enum")).collect();
@@ -937,7 +983,8 @@ fn main() {
         let wac = std::fs::read_to_string(&a[2]).unwrap();
         let wit = if a.len() > 3 { std::fs::read_to_string(&a[3]).unwrap() } else { wac.clone() };
         let meta = if a.len() > 4 { a[4].clone() } else { String::new() };
-        let (obs, enc, feats) = observe_wac(&wac);
+        let dep = if a.len() > 5 { std::fs::read_to_string(&a[5]).unwrap() } else { String::new() };
+        let (obs, enc, feats) = observe_wac(&wac, &dep);
         println!("features: {feats}");
         println!("observation: {obs}");
         if let Some(Ok(b)) = &enc { println!("--- wac encoding\n{}", wasmprinter::print_bytes(b).unwrap_or_default()); } else {
@@ -949,8 +996,8 @@ fn main() {
             }));
             if let Ok(Some(b)) = r { println!("--- wac encoding (not validated)\n{}", wasmprinter::print_bytes(&b).unwrap_or_else(|e| format!("unprintable: {e}"))); }
         }
-        match wit_encode(&wit) { Ok(b) => println!("--- reference encoding\n{}", wasmprinter::print_bytes(&b).unwrap_or_default()), Err(e) => println!("reference: {e}") }
-        println!("{}", evaluate("pkg", &wac, &wit, &meta));
+        match wit_encode(&wit, &dep) { Ok(b) => println!("--- reference encoding\n{}", wasmprinter::print_bytes(&b).unwrap_or_default()), Err(e) => println!("reference: {e}") }
+        println!("{}", evaluate("pkg", &wac, &wit, &meta, &dep));
         return;
     }
     if a.len() < 5 { eprintln!("usage: c05 <quick|thorough> <seed> <cases_out> <impl_out> [replay_cases_in]"); std::process::exit(2); }
@@ -966,21 +1013,27 @@ fn main() {
             // budget explores elsewhere (the witnesses of the known findings are in the corpus and are replayed on every run)
             for attempt in 0..12 {
                 let mut g = Gen { r: &mut r, n: 0, feats: BTreeSet::new() };
-                let (p, meta) = g.pkg(6, 3);
+                // every fourth package depends on a second, versioned package (`use dep:lib/i@0.2.0.{..}`, `import dep:lib/i@0.2.0;`)
+                let with_dep = i % 4 == 3;
+                let (dep_src, foreign) = if with_dep {
+                    let (d, _, infos) = g.pkg(2, 0, Vec::new(), true);
+                    (render(&d, Lang::Wit), infos)
+                } else { (String::new(), Vec::new()) };
+                let (p, meta, _) = g.pkg(if with_dep { 4 } else { 6 }, 3, foreign, false);
                 let wac = render(&p, Lang::Wac);
-                let (_, _, feats) = observe_wac(&wac);
+                let (_, _, feats) = observe_wac(&wac, &dep_src);
                 if !feats.is_empty() && attempt < 11 && !r.chance(1, 5) { continue; }
-                cases.push(format!("pkg\tg{i}\t{}\t{}\t{}", enc(&wac), enc(&render(&p, Lang::Wit)), meta));
+                cases.push(format!("pkg\tg{i}\t{}\t{}\t{}\t{}", enc(&wac), enc(&render(&p, Lang::Wit)), meta, enc(&dep_src)));
                 break;
             }
         }
-        for (i, s) in negatives(&mut r, n_neg).into_iter().enumerate() { cases.push(format!("neg\tn{i}\t{}\t-\t-", enc(&s))); }
+        for (i, s) in negatives(&mut r, n_neg).into_iter().enumerate() { cases.push(format!("neg\tn{i}\t{}\t-\t-\t-", enc(&s))); }
     }
     let mut fc = std::io::BufWriter::new(std::fs::File::create(&a[3]).unwrap());
     let mut fi = std::io::BufWriter::new(std::fs::File::create(&a[4]).unwrap());
     for c in &cases {
         let f: Vec<&str> = c.split('\t').collect();
-        let out = if f.len() < 5 { "BAD-LINE\t-\t-\t-".to_string() } else { evaluate(f[0], &dec(f[2]), &dec(f[3]), f[4]) };
+        let out = if f.len() < 5 { "BAD-LINE\t-\t-\t-".to_string() } else { evaluate(f[0], &dec(f[2]), &dec(f[3]), f[4], &if f.len() > 5 { dec(f[5]) } else { String::new() }) };
         writeln!(fc, "{c}").unwrap();
         writeln!(fi, "{out}").unwrap();
     }
